@@ -138,6 +138,20 @@ def cases(rng, tier):
                                for n in order]
                     root = [rng.choice(LEVELS3), rand_attach(rng, apps, 2)]
                     out.append(mk_case(apps, root, loggers, rng))
+    # names and targets that collide under 64-bit FNV-1a (the hasher of the crate's maps; any cache or table keyed by
+    # that hash instead of the text would confuse them): two known pairs, as whole names, as first and as last
+    # component, loggers of different thresholds / attachments, probed in both orders right after one another
+    for (p, q) in (("ajhhndhanpflopkj", "hcddmdbgkfljaffc"), ("7mohtcOFVz", "c1E51sSEyx")):
+        for (x, y) in ((p, q), (q, p)):
+            for (nx, ny) in ((x, y), (x + "::db", y + "::db"), ("svc::" + x, "svc::" + y)):
+                for (lx, ly) in ((1, 5), (5, 1), (3, 3), (0, 4)):
+                    loggers = [[nx, lx, 0, ["A0"]], [ny, ly, 1, ["A1"]]]
+                    root = [rng.below(6), ["A0"]]
+                    c = mk_case(apps, root, loggers, rng)
+                    # the probes: the two targets (and a child of each) alternating, all levels
+                    c[3] = [[t, L] for L in range(1, 6) for t in (nx, ny, nx + "::k", ny + "::k", ny, nx)]
+                    del c[5:]
+                    out.append(c)
     # random configs
     n_rand = 1200 if tier == "quick" else 30000
     for _ in range(n_rand):
